@@ -4,6 +4,26 @@ import json, os
 PROPS = [json.loads(l)['id'] for l in open('/verif/properties.jsonl')]
 
 CLAIMED = {
+ 'C11': dict(
+   category='proof',
+   text=('PARTIAL proof on closed forms regenerated from the source + exact correspondence + dense oracles. The closed-form gates (gate_nn_hopping, gate_nn_Ising, '
+         'gate_local_field, gate_local_occupation, gate_local_Coulomb) are TRANSLATED from yastn/tn/fpeps/gates.py on every run (tools/translate/tr_gates.py, fail-closed) '
+         'into linear combinations coefficient-kind x operator-expression. Proved in Coq: their operators denote, in the Jordan-Wigner convention of fkron, exactly the '
+         'generator K of the gate and K^2 / I / mutually orthogonal projectors, with coefficient kinds 1, cosh x - 1, sinh x, cosh x, -sinh x, e^x - 1 and the stated '
+         'arguments; and over EVERY commutative coefficient ring, for EVERY coefficient sequence a_k (a_k = x^k/k! is the exponential) and EVERY truncation order the '
+         'closed form equals sum_{k<=n} a_k K^k term by term, because K^3 = K (hopping), K^2 = I (Ising, field), K^2 = K (occupation) -- facts decided by computation '
+         'on the integer matrices and transferred to any ring through the canonical morphism. So the closed forms are the exponentials for all real or complex '
+         'parameters. The integer generator matrices and the denotations of the translated forms are compared exactly with the real operators (fkron of the predefined '
+         'operator classes), and the real gates with the numerical evaluation of the translated forms. NOT proved: gate_nn_exp / gate_local_exp, Heisenberg and t-J '
+         'gates, the SVD splitting, apply_gate_, two-layer contractions, sums of PEPS -- every predefined gate is compared with scipy expm of the Jordan-Wigner '
+         'Hamiltonian (real / imaginary / complex steps); apply_gate_ with local and random MPO gates (2..4 sites, shuffled operator positions, odd middle operators, '
+         'prefactors) along random paths on lattices up to 6 sites (open and cylinder, purifications and pure states) is compared with the same operators applied in '
+         'the 1D fermionic order; DoublePepsTensor.tensordot / transpose with fuse_layers; sums of PEPS with sums of states.'),
+   design_ref='DESIGN.md section 0.2 / 6 C11',
+   note=('Trusted: Coq kernel, no axioms; translator tr_gates.py; the 1D reference uses yastn.tn.mps (generate_mpo, MPO @ MPS/MPO), validated independently by C06/C07; '
+         'convergence of the series to the exponential is analysis and is not stated in Coq; spinful hopping, Heisenberg, t-J and the generic exponentials are covered by '
+         'the expm oracle only.'),
+   technique='Coq proof (ring-generic collapsed series; integer-matrix facts by computation; translated closed forms) + exact correspondence + scipy expm / 1D-reference oracles'),
  'C10': dict(
    category='proof',
    text=('PARTIAL proof on definitions regenerated from the source + trace correspondence + dense oracles. Translated from yastn/tn/mps/_tdvp.py on every run (fail-closed): '
